@@ -32,6 +32,10 @@ CHECKS = {
                 note="Trusted: lxml, Python re. Patterns matching the empty string excluded as in the statement. With links, positions index odfdo's own inner_text (Link.__str__ shows '[text](url)')."),
     "C20": dict(tech=MC, ref="5/C20", text="Every heading level sequence up to the length bound (outline level, TOC position, heading text kinds and edit history rotated over the sequences; full product on sequences of length <= 2), histories fill / fill,fill / fill,edit,fill: entries == selected headings in order, entry == number + space + heading projection and nothing else, counter model for the numbers, title kept, second fill is a no-op, the odfdo-headers script prints the same numbers.",
                 note="Trusted: lxml; no numbering convention assumed for skipped levels (arity and monotonicity only)."),
+    "C03": dict(tech=MC, ref="5/C03", text="BFS over edit histories (parse a part, body/meta/style edits, set_part, del_part, add_file, clone, save to zip path / BytesIO / folder, flat XML, reopen) from the 4 templates, every sample and BytesIO-/folder-opened copies; at every save the package read back with plain zipfile/lxml equals a dict-of-parts model maintained with plain lxml: XML parts as C14N infosets, other parts byte-identical, no name lost or invented; the saved target reopens to the same content.",
+                note="Trusted: zipfile, lxml. meta:generator excluded; manifest.rdf reconciliation judged by C04; pretty=False here (pretty is C11)."),
+    "C04": dict(tech=MC, ref="5/C04", text="BFS over manifest-relevant histories (add_file by path / file-like / repeated content, del_part, image frame, merge_styles_from, clone, save, reopen) over templates and samples; every saved zip: mimetype first, stored, a valid ODF type; no duplicate entry names; an independent manifest parse lists each file exactly once, nothing absent, root entry carries the mimetype.",
+                note="Trusted: zipfile, lxml. Directory entries of the manifest (e.g. 'Pictures/') are not judged."),
 }
 
 NOT_YET = {}
